@@ -562,7 +562,7 @@ PROPS = {
         "timeout_quick": 1200,
         "theories": ["theories/Base.v", "theories/Store.v", "theories/StoreProofs.v", "theories/Pool.v", "theories/PoolProofs.v",
                      "theories/BalanceProofs.v", "theories/Conc.v", "theories/ConcProofs.v", "theories/SerialProofs.v",
-                     "theories/Snapshot.v", "theories/SnapshotProofs.v", "theories/NonceProofs.v", "gen/Facts.v", "theories/Locks.v", "theories/LocksProofs.v", "gen/Facts.v", "theories/SerialFull.v", "theories/SoloPool.v"],
+                     "theories/Snapshot.v", "theories/SnapshotProofs.v", "theories/NonceProofs.v", "gen/Facts.v", "theories/Locks.v", "theories/LocksProofs.v", "gen/Facts.v", "theories/SerialFull.v", "theories/SoloPool.v", "theories/Mixed.v"],
         "check_theories": ["theories/Check10.v"],
         "level_text": "Four parts of different strength. (a) Store operations are atomic: computed obligations over "
                       "facts regenerated from the sources (every in-memory method takes the mutex, Lock then deferred "
@@ -580,7 +580,7 @@ PROPS = {
                       "balance they return and re-reading it after later writes, compared in-kernel with the model. "
                       "PARTIAL: absence of data races is runtime behaviour no Gallina model exhibits; it is searched "
                       "for with the race detector on the concurrent workloads (memory/badger keep-alives, balance "
-                      "updates, withdrawals, registry connect/close/peer, Remote calls). The per-node update lock: keyed-lock model (Locks.v) with mutual exclusion and progress theorems, the entry-removing variant refuted (and shown indistinguishable with only two requests), lock shape facts regenerated from pool/service.go; pool-level snapshot histories; chains of three overlapping keep-alives forced through a gate store. Serialisability proper (SerialFull.v): for any number of keep-alives of pairwise distinct nodes and any interleaving of their store actions that completes them, the final node records, peer sets, links and balances are those of a one-at-a-time execution in the order of the UpdatePeers actions (phase invariant + characterisation; each request alone = its UpdatePeers followed by its credits); SoloPool.v: a keep-alive program run alone ends in exactly the state Pool.pool_update computes, so the interleaved run agrees with the pool model applied one request at a time (keepalives_serialisable_pool). The request programs themselves are tied to the handlers by the call-trace correspondence: a recording store wrapper logs every store call the real Update/Connect/AddNode/Withdraw handlers make in random pool histories on both drivers, and the kernel compares each sequence (arguments included) with the calls the model program makes from the model state the history reached.",
+                      "updates, withdrawals, registry connect/close/peer, Remote calls). The per-node update lock: keyed-lock model (Locks.v) with mutual exclusion and progress theorems, the entry-removing variant refuted (and shown indistinguishable with only two requests), lock shape facts regenerated from pool/service.go; pool-level snapshot histories; chains of three overlapping keep-alives forced through a gate store. Serialisability proper (SerialFull.v): for any number of keep-alives of pairwise distinct nodes and any interleaving of their store actions that completes them, the final node records, peer sets, links and balances are those of a one-at-a-time execution in the order of the UpdatePeers actions (phase invariant + characterisation; each request alone = its UpdatePeers followed by its credits); SoloPool.v: a keep-alive program run alone ends in exactly the state Pool.pool_update computes, so the interleaved run agrees with the pool model applied one request at a time (keepalives_serialisable_pool). REFUTED for keep-alive x withdrawal (Mixed.v, known finding D28): a keep-alive credits each peer in a store action of its own, so a withdrawal of a wallet two credited hosts are paid into, run between the two credits, settles the first only - ledger and payout are the result of neither one-at-a-time order (nothing is lost); the witness schedule is forced on the real pool and payment service through a gate on the balance store and compared with both serial orders run on the same code. The request programs themselves are tied to the handlers by the call-trace correspondence: a recording store wrapper logs every store call the real Update/Connect/AddNode/Withdraw handlers make in random pool histories on both drivers, and the kernel compares each sequence (arguments included) with the calls the model program makes from the model state the history reached.",
         "level_note": "Trusted: Coq kernel; Go's sync.Mutex and memory model; badger's snapshot isolation and conflict "
                       "detection; the AST-based lock/transaction shape extractors; the race detector only sees the "
                       "schedules that happen to run.",
@@ -588,7 +588,7 @@ PROPS = {
                      "regenerated lock/transaction facts + vm_compute correspondence for snapshots + forced interleaving "
                      "and race-detector runs on the real code",
         "rule": "120 snapshot histories (8-32 adds/gets over a trial node, a linked node and its wallet, multi-word "
-                "amounts), both drivers; 60 call-trace pool histories (10-25 operations) on both drivers; per driver one forced same-node interleaving and one 12x40 concurrent "
+                "amounts), both drivers; 60 call-trace pool histories (10-25 operations) on both drivers; per driver one forced same-node interleaving, one forced keep-alive/withdrawal interleaving with its two serial orders, and one 12x40 concurrent "
                 "unit-credit run; one race-detector run of 10 concurrent workloads",
         "trusted": ["Locks model (keyed lock bookkeeping): sync.Mutex semantics and the Go scheduler are trusted; the lock facts are syntactic recognisers of the pinned shapes (harness/facts_locks.go)"],
     },
